@@ -21,7 +21,7 @@ fn gen_specs(rng: &mut impl Rng, force_acl: bool) -> Vec<gen::EntrySpec> {
             let k = rng.gen_range(0..names.len());
             e.name = names.remove(k).to_string();
             if e.kind == Kind::Hardlink || e.kind == Kind::Symlink { e.link = "a.txt".into(); }
-            if rng.gen_bool(0.6) && e.perm.is_none() {
+            if (force_acl || rng.gen_bool(0.6)) && e.perm.is_none() {
                 e.perm = Some((rng.gen_range(0..3000), ["root", "nobody", "someone"][rng.gen_range(0..3)].into(), rng.gen_range(0..3000), ["root", "nogroup"][rng.gen_range(0..2)].into(), rng.gen::<u16>() & 0o7777));
             }
             if rng.gen_bool(0.3) { e.xattrs.push(("user.k0".into(), b"old".to_vec())); }
@@ -150,7 +150,10 @@ pub fn edit(ctx: &mut Ctx) {
         // … then eight `strip` runs over entries that carry access-control chunks and other private chunks, with every
         // combination of --keep-acl and the three forms of --keep-private
         let forced_strip = (12..20).contains(&case);
-        let (bytes0, desc) = build_archive(&mut rng, &cfg, forced, forced_strip);
+        // … then eight `chown` runs (user only, group only, both, unknown names) over all entries, every entry carrying an
+        // owner whose uid and gid differ
+        let forced_chown = (20..28).contains(&case);
+        let (bytes0, desc) = build_archive(&mut rng, &cfg, forced, forced_strip || forced_chown);
         let sbx = Sbx::new("edit", case);
         let apath = sbx.path("a.pna");
         std::fs::write(&apath, &bytes0).unwrap();
@@ -159,14 +162,14 @@ pub fn edit(ctx: &mut Ctx) {
         let strategy = if forced { if case % 2 == 0 { "keep-solid" } else { "unsolid" } } else if rng.gen_bool(0.5) { "unsolid" } else { "keep-solid" };
         let npat = rng.gen_range(1..3);
         let single: String = if names.is_empty() { "a.txt".into() } else { globset::escape(&names[[0, names.len() / 2, names.len() - 1][(case / 2) % 3].min(names.len() - 1)]) };
-        let pats: Vec<&str> = if forced && case < 6 { vec![single.as_str()] } else { (0..npat).map(|_| PATTERNS[rng.gen_range(0..PATTERNS.len())]).collect() };
+        let pats: Vec<&str> = if forced && case < 6 { vec![single.as_str()] } else if forced_chown { vec!["**"] } else { (0..npat).map(|_| PATTERNS[rng.gen_range(0..PATTERNS.len())]).collect() };
         let sel = glob_sel(&pats, &names);
         let mut args: Vec<String> = vec![];
         let mut chown_expect: Option<(Option<(u64, String)>, Option<(u64, String)>)> = None;
         let mut strip_keep: Option<(bool, Vec<[u8; 4]>, bool, bool, bool)> = None; // (keep all private, kept types, timestamps, permission, xattrs)
         let cmd: &str;
         let model_req: String;
-        match if forced { 0 } else if forced_strip { 5 } else { rng.gen_range(0..6) } {
+        match if forced { 0 } else if forced_strip { 5 } else if forced_chown { 2 } else { rng.gen_range(0..6) } {
             0 => {
                 cmd = "delete";
                 let excl: Vec<&str> = if rng.gen_bool(0.3) { vec![PATTERNS[rng.gen_range(0..PATTERNS.len())]] } else { vec![] };
@@ -198,8 +201,11 @@ pub fn edit(ctx: &mut Ctx) {
             }
             2 => {
                 cmd = "chown";
-                let u = ["root", "nobody", "no-such-user-xyz", ""][rng.gen_range(0..4)];
-                let g = ["root", "nogroup", "no-such-group-xyz", ""][rng.gen_range(0..4)];
+                let (u, g) = if forced_chown {
+                    [("root", ""), ("nobody", ""), ("", "nogroup"), ("", "root"), ("root", "nogroup"), ("nobody", "root"), ("no-such-user-xyz", ""), ("", "no-such-group-xyz")][case - 20]
+                } else {
+                    (["root", "nobody", "no-such-user-xyz", ""][rng.gen_range(0..4)], ["root", "nogroup", "no-such-group-xyz", ""][rng.gen_range(0..4)])
+                };
                 let spec = if g.is_empty() { if u.is_empty() { "root".to_string() } else { u.to_string() } } else { format!("{u}:{g}") };
                 let (uu, gg): (Option<&str>, Option<&str>) = if let Some((a, b)) = spec.split_once(':') { ((!a.is_empty()).then_some(a), (!b.is_empty()).then_some(b)) } else { (Some(spec.as_str()), None) };
                 let uo = uu.and_then(lookup_user).map(|(i, n)| format!("{i}/{}", hexw(n.as_bytes()))).unwrap_or("-".into());
